@@ -45,6 +45,7 @@
 #include <vector>
 #include "core/main.hpp"
 #include "seams/streambuf.hpp"
+#include "c12_common.hpp"
 
 namespace prop
 {
@@ -54,140 +55,6 @@ char const *const id = "C12";
 namespace
 {
 constexpr unsigned SLOTS = 4;
-
-// ---- summaries of parse results (so that results of different grammars are comparable)
-template <typename Ch>
-void summ(std::string &o, Ch c)
-  requires(std::is_same_v<Ch, char> || std::is_same_v<Ch, wchar_t>)
-{
-  o += std::to_string(static_cast<long>(c)) + ".";
-}
-inline void summ(std::string &o, fcppt::unit const &) { o += "u"; }
-template <typename Ch>
-void summ(std::string &o, std::basic_string<Ch> const &s)
-{
-  o += "\"";
-  for (Ch c : s)
-    summ(o, c);
-  o += "\"";
-}
-template <typename T>
-void summ(std::string &o, std::vector<T> const &v);
-template <typename... Ts>
-void summ(std::string &o, fcppt::tuple::object<Ts...> const &t);
-template <typename T>
-void summ(std::string &o, fcppt::optional::object<T> const &t);
-template <typename... Ts>
-void summ(std::string &o, fcppt::variant::object<Ts...> const &t);
-
-template <typename T>
-void summ(std::string &o, std::vector<T> const &v)
-{
-  o += "[";
-  for (auto const &x : v)
-    summ(o, x);
-  o += "]";
-}
-template <typename... Ts>
-void summ(std::string &o, fcppt::tuple::object<Ts...> const &t)
-{
-  o += "(";
-  std::apply([&o](auto const &...x) { (summ(o, x), ...); }, t.impl());
-  o += ")";
-}
-template <typename T>
-void summ(std::string &o, fcppt::optional::object<T> const &t)
-{
-  if (t.has_value())
-  {
-    o += "?";
-    summ(o, t.get_unsafe());
-  }
-  else
-    o += "?-";
-}
-template <typename... Ts>
-void summ(std::string &o, fcppt::variant::object<Ts...> const &t)
-{
-  o += "<" + std::to_string(t.impl().index()) + ":";
-  std::visit([&o](auto const &x) { summ(o, x); }, t.impl());
-  o += ">";
-}
-
-template <typename Ch>
-std::string narrow_msg(std::basic_string<Ch> const &s)
-{
-  std::string r;
-  for (Ch c : s)
-    r.push_back(static_cast<unsigned long>(c) < 128 ? static_cast<char>(c) : '?');
-  return r;
-}
-
-template <typename Ch, typename R>
-std::string summarize(fcppt::either::object<fcppt::parse::error<Ch>, R> const &r)
-{
-  if (r.has_failure())
-    return std::string(r.get_failure_unsafe().is_fatal() ? "FATAL:" : "F:") + narrow_msg(r.get_failure_unsafe().get());
-  std::string o = "S:";
-  summ(o, r.get_success_unsafe());
-  return o;
-}
-
-template <typename Ch>
-struct Grammars
-{
-  using stream_t = fcppt::parse::basic_stream<Ch>;
-  using lit = fcppt::parse::basic_literal<Ch>;
-  using cset = fcppt::parse::basic_char_set<Ch>;
-  using chr = fcppt::parse::basic_char<Ch>;
-  using str = fcppt::parse::basic_string<Ch>;
-  static constexpr unsigned COUNT = 9;
-
-  template <typename Skipper>
-  static std::string run_with(unsigned g, stream_t &s, Skipper const &sk)
-  {
-    namespace P = fcppt::parse;
-    Ch const A = Ch('a'), NL = Ch('\n'), SP = Ch(' '), TB = Ch('\t');
-    switch (g % COUNT)
-    {
-    case 0:
-      return summarize<Ch>(P::phrase_parse(*chr{}, s, sk));
-    case 1:
-      return summarize<Ch>(P::phrase_parse(+cset{A, SP}, s, sk));
-    case 2:
-      return summarize<Ch>(P::phrase_parse(*(lit{A} | lit{NL}), s, sk));
-    case 3:
-      return summarize<Ch>(P::phrase_parse(str{std::basic_string<Ch>{A, NL, A}} | str{std::basic_string<Ch>{A, NL, NL}}, s, sk));
-    case 4:
-      return summarize<Ch>(P::phrase_parse(*(!lit{NL} >> chr{}), s, sk));
-    case 5:
-      return summarize<Ch>(P::phrase_parse(-lit{A} >> *~cset{NL}, s, sk));
-    case 6:
-      return summarize<Ch>(P::phrase_parse(*(cset{A} >> -lit{NL}), s, sk));
-    case 7:
-      return summarize<Ch>(P::phrase_parse(P::make_fatal(lit{A}) | chr{}, s, sk));
-    default:
-      return summarize<Ch>(P::phrase_parse(*(cset{A, TB} | (lit{SP} >> cset{A, NL, SP})), s, sk));
-    }
-  }
-  static std::string run(unsigned g, unsigned skipper, stream_t &s)
-  {
-    if (skipper % 2 == 0)
-      return run_with(g, s, fcppt::parse::skipper::epsilon());
-    // (skipper::basic_space<Ch> only compiles for char: it is spelled with skipper::char_set)
-    return run_with(g, s, *fcppt::parse::skipper::basic_char_set<Ch>{fcppt::parse::space_set<Ch>()});
-  }
-};
-
-std::string decode_text(std::string const &enc)
-{
-  std::string r;
-  for (char c : enc)
-    r.push_back(c == 'N' ? '\n' : c == 'S' ? ' ' : c == 'T' ? '\t' : c == 'R' ? '\r' : c == 'X' ? '\xe9' : c == 'Y' ? '\xff' : c == 'W' ? '\x01' : c == 'Z' ? '\0' : c == '_' ? '\0' : 'a');
-  if (enc == "_")
-    r.clear();
-  return r;
-}
 
 std::string scratch_file()
 {
